@@ -156,6 +156,7 @@ type Exec struct {
 	Defs        []*term.Term // definitional constraints of fresh witness variables (always conjoined)
 	RawOutcomes int
 	digitMemo   map[string]witnessDigits
+	ymdMemo     map[int]ymdWitness
 	Events      []Event
 	randN       int
 	Trace       bool
